@@ -140,8 +140,11 @@ StrokeMem(tag, g, sp, q, cs0) ==     \* cs0 = StrokeContours(tag, g), computed o
       q16 == Q16(q)
       hw16 == 8 * sp.w
       in16 == hw16 - Beta16
-      out16 == hw16 + Beta16          \* beyond this from every segment (vertices are treated apart)
       arr == DashArr(sp.dash)
+      \* a dash of length zero with square caps is a square about a point: SVG aligns it with the path,
+      \* the property only bounds it by the cap reach (w/2 * sqrt 2 < w/2 * 3/2) - so does the spec
+      dots == sp.cap = "square" /\ \E k \in 1..Len(arr) : k % 2 = 1 /\ arr[k] = 0
+      out16 == (IF dots THEN (hw16 * 3) \div 2 + 1 ELSE hw16) + Beta16   \* beyond this from every segment (vertices apart)
       period == SumD(arr, 1)
       dashed == arr # <<>> /\ period > 0
       capext16 == IF sp.cap = "butt" THEN 0 ELSE hw16
